@@ -209,6 +209,10 @@ def make_search(mido, kind, depth):
                     out.append(('hangup', i))
         if s.can_out:
             out.append(('send',))
+            if s.autoreset_dev is not None:
+                # the application itself sends what a reset would send
+                out += [('send_ctl', 'last'), ('send_ctl', 'first'),
+                        ('reset',)]
         if s.can_in:
             out += [('poll',), ('recv_nb',), ('iter_pending',)]
             scripts = [(), ('N', 'N', 'N', 'N', 'N')]
@@ -279,10 +283,20 @@ def make_search(mido, kind, depth):
                 d = s.devs[op[1]]
                 d.fail_receive_at = len(d.receive_calls) + 1
                 res = ('env',)
-            elif k == 'send':
+            elif k == 'reset':
+                try:
+                    p.reset()
+                    res = ('ok',)
+                except Exception as e:
+                    res = ('raised', e)
+            elif k in ('send', 'send_ctl'):
                 s.counter += 1
                 m = M('note_on', note=s.counter % 128,
                       velocity=1 if kind == 'echo' else 100)
+                if k == 'send_ctl':
+                    m = (M('control_change', channel=15, control=121, value=0)
+                         if op[1] == 'last' else
+                         M('control_change', channel=0, control=123, value=0))
                 obs['sent_obj'] = m
                 try:
                     p.send(m)
@@ -401,10 +415,17 @@ def make_search(mido, kind, depth):
                     return
             if s.autoreset_dev is not None:
                 d = s.devs[s.autoreset_dev]
-                resets = [(m.channel, m.control) for e, *rest in d.log
-                          if e == 'send' for m in rest
-                          if m.type == 'control_change'
-                          and m.control in (121, 123)]
+                # what this close call wrote to the device
+                n_now = obs['sent_delta'][s.autoreset_dev]
+                phase = d.sent[len(d.sent) - n_now:] if n_now else []
+                resets = [(m.channel, m.control) if m.type == 'control_change'
+                          and m.value == 0 else ('other', m.type)
+                          for m in phase]
+                if obs['closed_before']:
+                    if phase:
+                        bad('autoreset-again', f'{len(phase)} messages sent '
+                            f'by a close call on an already closed port')
+                    return
                 close_pos = [j for j, e in enumerate(d.log) if e[0] == 'close']
                 after = [e for e in d.log[close_pos[0] + 1:]
                          if e[0] == 'send'] if close_pos else []
@@ -419,7 +440,7 @@ def make_search(mido, kind, depth):
             return
         if k in ('deliver', 'hangup', 'arm_fail', 'arm_fail_recv'):
             return
-        nb = k in ('poll', 'recv_nb', 'iter_pending', 'send')
+        nb = k in ('poll', 'recv_nb', 'iter_pending', 'send', 'send_ctl', 'reset')
         if nb and obs['sleeps']:
             bad('non-blocking-call-waited', f'{obs["sleeps"]} sleep call(s) '
                 f'inside a non-blocking call')
@@ -429,7 +450,23 @@ def make_search(mido, kind, depth):
             bad('non-blocking-call-blocking-device-read',
                 '_receive(block=True) reached from a non-blocking call')
             return
-        if k == 'send':
+        if k == 'reset':
+            if res[0] == 'raised':
+                if isinstance(res[1], OSError) and 'injected' in str(res[1]):
+                    return
+                bad(f'reset-raised/{type(res[1]).__name__}', f'{res[1]!r}')
+                return
+            d = s.devs[s.autoreset_dev]
+            n_now = obs['sent_delta'][s.autoreset_dev]
+            got = [(m.channel, m.control) if m.type == 'control_change'
+                   and m.value == 0 else ('other', m.type)
+                   for m in (d.sent[len(d.sent) - n_now:] if n_now else [])]
+            want = [] if obs['closed_before'] else reset_sequence()
+            if got != want:
+                bad('reset', f'reset() wrote {len(got)} messages to the device, '
+                    f'expected {len(want)}')
+            return
+        if k in ('send', 'send_ctl'):
             if obs['closed_before']:
                 if res[0] != 'raised' or not isinstance(res[1], ValueError):
                     bad('send-on-closed', f'send on a closed port: {res}')
